@@ -180,6 +180,9 @@ pub struct Config {
     /// Whether to stop searching when a non-matching line is found after a
     /// matching line.
     stop_on_nonmatch: bool,
+    /// Verification hook: initial capacity of the roll buffer (eager growth).
+    #[cfg(feature = "verif-hooks")]
+    verif_buffer_capacity: Option<usize>,
 }
 
 impl Default for Config {
@@ -198,6 +201,8 @@ impl Default for Config {
             encoding: None,
             bom_sniffing: true,
             stop_on_nonmatch: false,
+            #[cfg(feature = "verif-hooks")]
+            verif_buffer_capacity: None,
         }
     }
 }
@@ -227,6 +232,12 @@ impl Config {
             builder
                 .capacity(capacity)
                 .buffer_alloc(BufferAllocation::Error(additional));
+        }
+        #[cfg(feature = "verif-hooks")]
+        if let (None, Some(capacity)) =
+            (self.heap_limit, self.verif_buffer_capacity)
+        {
+            builder.capacity(capacity);
         }
         builder.build()
     }
@@ -456,6 +467,20 @@ impl SearcherBuilder {
         bytes: Option<usize>,
     ) -> &mut SearcherBuilder {
         self.config.heap_limit = bytes;
+        self
+    }
+
+    /// Verification hook: build the roll buffer used for incremental line
+    /// oriented searching with the given initial capacity (at least 1). The
+    /// buffer still grows on demand, so unlike `heap_limit` this never turns a
+    /// long line into an error. Ignored when a heap limit is set.
+    #[cfg(feature = "verif-hooks")]
+    pub fn verif_buffer_capacity(
+        &mut self,
+        capacity: Option<usize>,
+    ) -> &mut SearcherBuilder {
+        self.config.verif_buffer_capacity =
+            capacity.map(|c| std::cmp::max(1, c));
         self
     }
 
